@@ -152,6 +152,56 @@ pub fn run(opts: &HashMap<String, String>) -> i32 {
                     run_traced(rid + 1 + k as u64, &input, &v);
                     runs += 1;
                 }
+                // read boundaries placed inside tokens: (a) right after the 8th (7th after '-') byte of every long
+                // digit run, so that the SWAR fast path ends exactly at the end of the buffered data; (b) in the
+                // middle of every token
+                let mut ends_a: Vec<usize> = vec![];
+                let mut ends_b: Vec<usize> = vec![];
+                let mut i = 0;
+                while i < input.len() {
+                    if input[i].is_ascii_digit() || (input[i] == b'-' && i + 1 < input.len() && input[i + 1].is_ascii_digit()) {
+                        let s0 = i;
+                        i += 1;
+                        while i < input.len() && input[i].is_ascii_digit() {
+                            i += 1;
+                        }
+                        if i - s0 >= 9 {
+                            ends_a.push(s0 + 8);
+                        }
+                    } else {
+                        i += 1;
+                    }
+                }
+                let mut t = 0;
+                while t < input.len() {
+                    if !b" \t\r\n".contains(&input[t]) {
+                        let s0 = t;
+                        while t < input.len() && !b" \t\r\n".contains(&input[t]) {
+                            t += 1;
+                        }
+                        if t - s0 >= 2 {
+                            ends_b.push(s0 + (t - s0) / 2);
+                        }
+                    } else {
+                        t += 1;
+                    }
+                }
+                for (k, ends) in [ends_a, ends_b].iter().enumerate() {
+                    if ends.is_empty() {
+                        continue;
+                    }
+                    let mut cuts = vec![];
+                    let mut last = 0;
+                    for e in ends {
+                        if *e > last {
+                            cuts.push(e - last);
+                            last = *e;
+                        }
+                    }
+                    let v = variant(&base, Policy::Cuts(cuts), "cuts", 16384, 0, s);
+                    run_traced(rid + 10 + k as u64, &input, &v);
+                    runs += 1;
+                }
             }
             "fault" => {
                 let n = input.len();
